@@ -5,10 +5,13 @@ From Coq Require Extraction.
 From Coq Require Import ExtrOcamlBasic.
 From Coq Require Import ZArith List.
 From Segno Require Import Base.PyLite Ref.Geometry Ref.MaskCond Ref.Bch.
-From Segno Require Import Ref.Classify.
+From Segno Require Import Ref.Classify Ref.Decoder Ref.Spec.
 From Segno Require Import Model.Bits Model.Segment Model.Version Model.Stream Model.Matrix Model.Encode.
 Cd "build/ocaml".
 Extraction "model.ml" Classify.classify_matrix Classify.kf_fmt_col Classify.align_aux_matrix
   Encode.encode Encode.encode_core Segment.make_segment Segment.find_mode Version.find_version Version.boost_error_level
-  Version.bit_length_with_overhead Stream.make_final_message Matrix.mask_scores Matrix.evaluate_micro_mask.
+  Version.bit_length_with_overhead Stream.make_final_message Matrix.mask_scores Matrix.evaluate_micro_mask
+  Decoder.decode_symbol Decoder.read_blocks Decoder.read_format Decoder.read_stream
+  Spec.c02_check Spec.c03_check Spec.c13_check Spec.candidate_scores Spec.iso_best_mask Spec.spec_mode
+  Spec.spec_version Spec.spec_boost Spec.kf_pad_aligned Spec.iso_penalty Spec.iso_micro_score Spec.spec_bits Spec.function_pattern_errors.
 Cd "../..".
